@@ -192,7 +192,7 @@ func (e *Exec) execStdlib(fr *Frame, st *State, in ssa.CallInstruction, c *ssa.C
 	case "strconv.FormatFloat":
 		e.S.DeclareFun("formatFloat", []string{"Int", "Int", "Int", "Int"}, "String")
 		return vStr(sx("formatFloat", arg(0).t(), arg(1).t(), arg(2).t(), arg(3).t())).withT(rt)
-	case "(time.Time).Format":
+	case "time.(Time).Format":
 		e.S.DeclareFun("timeFormat", []string{"Int", "String"}, "String")
 		return vStr(sx("timeFormat", arg(0).t(), arg(1).t())).withT(rt)
 	case "time.Parse":
